@@ -211,14 +211,20 @@ Section Root1.
   Lemma ab_static_root st b be ic e st' b' :
     ab_static child st b be 1 0 ic = Ok (e, st', b') ->
     st' = st /\ b' = b /\
-    match e with Ret v => val_ok 0 v /\ (-32768 <= be <= 32665 -> be <= v) | GoOn _ _ => True end.
+    match e with
+    | Ret v => val_ok 0 v /\ (-32768 <= be -> be + SearchParams.RFPScoreFactor <= 32767 -> be <= v)
+    | GoOn _ _ => True end.
   Proof.
-    intros H. unfold ab_static in H. change (wrap8 SearchParams.NMPDepthLimit <? 1) with false in H. cbn [andb] in H.
+    intros H. unfold ab_static in H.
+    assert (En : (wrap8 SearchParams.NMPDepthLimit <? 1) = false) by (vm_compute; reflexivity).
+    rewrite En in H. cbn [andb] in H.
     walk; try (split; [reflexivity|split; [reflexivity|exact I]]).
-    split; [reflexivity|split; [reflexivity|]]. split; [apply val_ok_static|]. intros Hbe.
+    split; [reflexivity|split; [reflexivity|]]. split; [apply val_ok_static|]. intros Hb1 Hb2.
     match goal with C : _ && _ && _ = true |- _ => apply andb_true_iff in C; destruct C as [C _]; apply andb_true_iff in C; destruct C as [_ C2] end.
-    apply Z.leb_le in C2. change (wrap16 (wrap16 1 * wrap16 SearchParams.RFPScoreFactor)) with 102 in C2.
-    unfold add16 in C2. rewrite wrap16_id in C2 by lia. lia.
+    apply Z.leb_le in C2.
+    assert (Er : wrap16 (wrap16 1 * wrap16 SearchParams.RFPScoreFactor) = SearchParams.RFPScoreFactor /\ 0 <= SearchParams.RFPScoreFactor)
+      by (vm_compute; split; [reflexivity|discriminate]).
+    destruct Er as [Er Hr0]. rewrite Er in C2. unfold add16 in C2. rewrite wrap16_id in C2 by lia. lia.
   Qed.
 
   Lemma rk_trace s p e : s_rk (trace s p e) = s_rk s.
@@ -234,7 +240,7 @@ Section Root1.
     tt_values_ok (s_tt st') /\
     (s_aborted st' = false ->
        score_ok v /\
-       (-32768 <= be <= 32665 -> al < v < be -> Pv.line (s_pv st') 0 = [] ->
+       (-32768 <= be -> be + SearchParams.RFPScoreFactor <= 32767 -> al < v < be -> Pv.line (s_pv st') 0 = [] ->
         100 <= fifty b \/ 3 <= threefold b \/ root_no_legal st b)).
   Proof.
     intros Hg [Ht Hw] Htv H. unfold ab_body in H.
@@ -264,15 +270,16 @@ Section Root1.
     apply ab_static_root in Es. destruct Es as (-> & -> & Hret).
     destruct e as [v0|se imp].
     { walk. destruct Hret as [Hv0 Hge]. split; [exact Tv0|]. intros _. split; [apply val0_score; exact Hv0|].
-      intros Hbe Hwin _. specialize (Hge Hbe). lia. }
-    change (wrap8 SearchParams.IIRDepthLimit <? 1) with false in H. rewrite andb_false_r in H. cbn [andb] in H.
+      intros Hb1 Hb2 Hwin _. specialize (Hge Hb1 Hb2). lia. }
+    assert (Ei : (wrap8 SearchParams.IIRDepthLimit <? 1) = false) by (vm_compute; reflexivity).
+    rewrite Ei, andb_false_r in H. cbn [andb] in H.
     match type of H with bind ?e _ = _ => destruct e as [[[v1 st2] b2]| |] eqn:El end; cbn [bind] in H; try discriminate H.
     walk. cbn [s_tt s_aborted s_pv set_ms].
     eapply (ab_loop_root (length (Picker.s_data (s_ms st0)) :: Picker.s_frames (s_ms st0)) (Picker.s_data (s_ms st0))) in El;
       [ | exact Hg | split; proj2_simpl; [exact (proj1 S0)|exact (proj2 S0)] | proj2_simpl; exact Tv0 | | cbn [Picker.picker_new Picker.p_hash]; exact Hhm
         | exact mv_ok_0 | proj2_simpl; rewrite P0, L1; exact I | reflexivity ].
     - destruct El as [Htv' El]. split; [exact Htv'|]. intros Ha. destruct (El Ha) as (Hsc & _ & Hcl).
-      split; [exact Hsc|]. intros Hbe Hwin Hline. right. right.
+      split; [exact Hsc|]. intros Hb1 Hb2 Hwin Hline. right. right.
       destruct Hcl as [N|[F|[F|[_ (ys & Hd & Hall)]]]].
       + unfold maxim_inv. reflexivity.
       + contradiction.
